@@ -1,6 +1,7 @@
 package main
 
 import (
+	"go/token"
 	"fmt"
 	"go/ast"
 	"go/constant"
@@ -74,6 +75,39 @@ func leafAcceptableHTML(l leaf, fnName string) (bool, string) {
 	return false, l.String() + " is written without the HTML escaper"
 }
 
+// acceptableModuloOwnParams: acceptable if the function's own parameters (and its function-typed parameters applied
+// to something) were acceptable — i.e. the decision belongs to the callers.
+func acceptableModuloOwnParams(l leaf, fnName string) bool {
+	switch l.Kind {
+	case "PARAM", "FPARAM":
+		if strings.HasPrefix(l.Info, fnName+"#") || strings.HasPrefix(l.Info, "*"+fnName+"#") {
+			return true
+		}
+		return false
+	case "CALL":
+		if len(l.Inner) == 0 {
+			return false
+		}
+		for _, il := range l.Inner {
+			if ok, _ := leafAcceptableHTML(il, fnName); !ok && !acceptableModuloOwnParams(il, fnName) {
+				return false
+			}
+		}
+		return true
+	}
+	ok, _ := leafAcceptableHTML(l, fnName)
+	return ok
+}
+
+// ownParamsOnly: the leaf is a parameter of fnName itself (possibly inside concatenations/calls that are otherwise acceptable).
+func ownParamsOnly(l leaf, fnName string) bool {
+	switch l.Kind {
+	case "PARAM":
+		return strings.HasPrefix(l.Info, fnName+"#")
+	}
+	return false
+}
+
 func runC01(c *Ctx) {
 	c.load(".", "./runtime", "./safehtml", "./generator")
 	f := c.flow()
@@ -121,7 +155,39 @@ func htmlSinkOperands(c *Ctx, f *flow, rule string) {
 		fns = append(fns, ssaFuncs(c.prog, c.ssaPkg(rel))...)
 	}
 	wrappers := wrapperParams(f, fns)
+	// unexported functions that are only ever called directly: what they forward from a parameter to a sink is the
+	// caller's operand, and is checked at every call site (below) instead of inside the helper
+	onlyCalled := map[*ssa.Function]bool{}
+	for _, fn := range fns {
+		if fn.Object() != nil && !fn.Object().Exported() && fn.Signature.Recv() == nil {
+			onlyCalled[fn] = true
+		}
+	}
+	for _, fn := range fns {
+		for _, b := range fn.Blocks {
+			for _, ins := range b.Instrs {
+				var callee ssa.Value
+				if ci, ok := ins.(ssa.CallInstruction); ok {
+					callee = ci.Common().Value
+				}
+				for _, op := range ins.Operands(nil) {
+					if op == nil || *op == nil {
+						continue
+					}
+					if f2, ok := (*op).(*ssa.Function); ok && *op != callee {
+						delete(onlyCalled, f2) // used as a value
+					}
+				}
+			}
+		}
+	}
 	nsinks, nops := 0, 0
+	type deferredSink struct {
+		key    string
+		leaves []leaf
+		pos    token.Pos
+	}
+	deferred := map[*ssa.Function][]deferredSink{}
 	for _, fn := range fns {
 		name := ssaFuncName(fn)
 		ord := map[string]int{}
@@ -175,11 +241,19 @@ func htmlSinkOperands(c *Ctx, f *flow, rule string) {
 				key := fmt.Sprintf("%s|%s#%d|operand%d", name, s.Kind, ord[s.Kind], oi)
 				ls := f.classify(o)
 				bad := ""
+				deferredHere := false
 				for _, l := range ls {
 					if ok, why := leafAcceptableHTML(l, name); !ok {
+						if onlyCalled[fn] && acceptableModuloOwnParams(l, name) {
+							deferredHere = true // a parameter of this directly-called helper: decided at its call sites
+							continue
+						}
 						bad = why
 						break
 					}
+				}
+				if deferredHere && bad == "" {
+					deferred[fn] = append(deferred[fn], deferredSink{key: key, leaves: ls, pos: s.Pos})
 				}
 				if bad != "" {
 					c.viol(rule, key, c.pos(s.Pos), fmt.Sprintf("%s: %s (operand classified as %s)", name, bad, leavesString(ls)))
@@ -229,6 +303,58 @@ func htmlSinkOperands(c *Ctx, f *flow, rule string) {
 				}
 			}
 		}
+	}
+	// operands that a directly-called helper takes from its parameters: decided at each call site, with the helper's
+	// parameters replaced by the arguments (up to three levels of helpers)
+	for round := 0; round < 3 && len(deferred) > 0; round++ {
+		next := map[*ssa.Function][]deferredSink{}
+		for _, fn := range fns {
+			name := ssaFuncName(fn)
+			nth := map[*ssa.Function]int{}
+			for _, b := range fn.Blocks {
+				for _, ins := range b.Instrs {
+					ci, ok := ins.(ssa.CallInstruction)
+					if !ok {
+						continue
+					}
+					callee := ci.Common().StaticCallee()
+					if callee == nil || len(deferred[callee]) == 0 || callee == fn {
+						continue
+					}
+					nth[callee]++
+					for _, ds := range deferred[callee] {
+						var sub []leaf
+						for _, l := range ds.leaves {
+							sub = append(sub, f.substParams(l, callee, ci.Common().Args, 0, map[ssa.Value]bool{})...)
+						}
+						nops++
+						key := fmt.Sprintf("%s|call:%s#%d|%s", name, callee.Name(), nth[callee], ds.key)
+						bad, again := "", false
+						if _, exempt := nonHTMLWriters[name]; !exempt {
+							for _, l := range sub {
+								if ok, why := leafAcceptableHTML(l, name); !ok {
+									if onlyCalled[fn] && acceptableModuloOwnParams(l, name) {
+										again = true
+										continue
+									}
+									bad = why
+									break
+								}
+							}
+						}
+						if bad != "" {
+							c.viol(rule, key, c.pos(ins.Pos()), fmt.Sprintf("%s: %s (written by %s at %s; operand classified as %s)", name, bad, callee.Name(), c.pos(ds.pos), leavesString(sub)))
+						} else {
+							c.ok(rule, key, c.pos(ins.Pos()), leavesString(sub))
+							if again {
+								next[fn] = append(next[fn], deferredSink{key: key, leaves: sub, pos: ds.pos})
+							}
+						}
+					}
+				}
+			}
+		}
+		deferred = next
 	}
 	c.count("sink_sites", nsinks)
 	c.count("sink_operands", nops)
